@@ -81,12 +81,10 @@ def getCell (cs : Chains) (pos : Nat) (col : Nat) : List Char :=
   let c := cs.getD pos ([], [])
   if col == 0 then c.1 else c.2
 
-/-- `set_fg(c_or_o, pos, bond_elem, name)` → (chains, recognised) -/
-def setFg (cs : Chains) (col pos : Nat) (bondElem name : List Char) : Outcome (Chains × Bool) :=
-  if pos ≥ cs.length then .error "IndexError" else
+/-- What `set_fg` does to the one cell it touches, as a function of that cell's current content. -/
+def fgEdit (cur bondElem name : List Char) : Outcome ((List Char → List Char) × Bool) :=
   match fgLookup name with
   | some v =>
-    let cur := getCell cs pos col
     let be1 := if !cur.isEmpty && (match bondElem with | [b] => cur.getLast? == some b | _ => false) then [] else bondElem
     let be2 := if be1 == ['P'] then "OP(=O)(O)".toList else be1
     -- `side_chains[..][-1] == functional_groups[name][0] != "C"`; an empty value raises IndexError when it is looked at
@@ -94,13 +92,21 @@ def setFg (cs : Chains) (col pos : Nat) (bondElem name : List Char) : Outcome (C
       match v.head? with
       | none => .error "IndexError"
       | some v0 =>
-        if cur.getLast? == some v0 && v0 != 'C' then .ok (setCell cs pos col (· ++ be2 ++ v.drop 1), true)
-        else .ok (setCell cs pos col (· ++ be2 ++ v), true)
-    else .ok (setCell cs pos col (· ++ be2 ++ v), true)
+        if cur.getLast? == some v0 && v0 != 'C' then .ok ((· ++ be2 ++ v.drop 1), true)
+        else .ok ((· ++ be2 ++ v), true)
+    else .ok ((· ++ be2 ++ v), true)
   | none =>
     if name.length < 2 then .error "IndexError"
     else if isPolyCarbon name then .unmodelled
-    else .ok (cs, false)
+    else .ok (id, false)
+
+/-- `set_fg(c_or_o, pos, bond_elem, name)` → (chains, recognised) -/
+def setFg (cs : Chains) (col pos : Nat) (bondElem name : List Char) : Outcome (Chains × Bool) :=
+  if pos ≥ cs.length then .error "IndexError" else
+  match fgEdit (getCell cs pos col) bondElem name with
+  | .ok (f, ok) => .ok (setCell cs pos col f, ok)
+  | .error e => .error e
+  | .unmodelled => .unmodelled
 
 def conflictsNOP : List (List Char) := Gen.nConflict ++ Gen.oConflict ++ Gen.pConflict
 
